@@ -399,8 +399,25 @@ func Register[C any](p Prop[C]) {
 				if !mine {
 					return true
 				}
-				r, _ := exec(c)
+				r, cj := exec(c)
 				if r.failed {
+					if os.Getenv("VERIF_CONTINUE") != "" {
+						// triage mode: collect the first case of every distinct signature
+						ps.mu.Lock()
+						dup := false
+						for _, v := range ps.violations {
+							if v.Sig == r.Sig {
+								dup = true
+							}
+						}
+						if !dup {
+							ps.violations = append(ps.violations, violation{Sig: r.Sig, Msg: r.Msg, Case: cj})
+						}
+						ps.lastFail = nil
+						ps.mu.Unlock()
+
+						return true
+					}
 					t.Errorf("%s: %s", r.Sig, r.Msg)
 
 					return false
